@@ -200,7 +200,11 @@ def run(ctx):
         worst = 0
         for line in (out or "").splitlines():
             f = line.split()
-            kv = dict(x.split("=") for x in f[2:])
+            if len(f) < 3 or f[0] not in ("X", "B"):
+                continue        # e.g. sanitizer text interleaved after a crash (already reported above)
+            kv = dict(x.split("=") for x in f[2:] if "=" in x)
+            if (f[0] == "X" and not {"highwater", "bufsize", "max", "errors"} <= set(kv)) or (f[0] == "B" and not {"dropped", "errors"} <= set(kv)):
+                continue
             ctx.evaluations += 52
             if f[0] == "X":
                 hw, bs, mx = int(kv["highwater"]), int(kv["bufsize"]), int(kv["max"])
@@ -229,6 +233,21 @@ def run(ctx):
     exe2 = compilelib.build_with_generated("C09", "c09gen_regen", "c09_gen.cpp", x_out=outs["extended"], x_ns="ree", b_out=outs["basic"],
                                            b_ns="reb", sanitize=True)
     check_bufs(exe2, "regenerated")
+    # compiler-generated zones beyond the shipped shapes: the enumerated sources of the TZ grammar (era boundaries x rules,
+    # policies that start around the first year of the database, January rules, ...), compiled together per scope
+    import tzgen
+    gouts = {}
+    for scope in ("extended", "basic"):
+        objs = tzgen.systematic_sources(scope == "basic")
+        text = "".join(tzgen.render(o, "S%d" % i) for i, o in enumerate(objs))
+        r = compilelib.compile_source(work, "gen_" + scope, text, scope, "arduino", db_namespace="gn" + scope[0], actions="zonedb")
+        if r["rc"] != 0:
+            raise vt.HarnessError("tzcompiler failed on the enumerated sources (C03 reports that): " + r["log"][-400:])
+        gouts[scope] = r["outdir"]
+        ctx.count("enumerated_sources_" + scope, len(objs))
+    exe3 = compilelib.build_with_generated("C09", "c09gen_enum", "c09_gen.cpp", x_out=gouts["extended"], x_ns="gne", b_out=gouts["basic"],
+                                           b_ns="gnb", sanitize=True)
+    check_bufs(exe3, "enumerated")
     ctx.sample({"op_sequence_example": ["LocalDate::forComponents(1874,88,30)", "ZonedDateTime::forEpochSeconds(INT32_MIN, extended tz) x2",
                                         "TimeZone::getAbbrev(2060-..) x2 on a processor shared by two zones"]})
     ctx.sample({"seq4_history": "kind:argclass steps, e.g. [0:0 1:2 1:2 2:3] = off(valid) delta(above) delta(above) abbrev(sentinel)"})
